@@ -330,7 +330,7 @@ def obligations(tier: str):
                        expect_reach=["non-vacuous"], query_timeout_ms=60000, mode="fresh")
         o.replay = True
         obs.append(o)
-    shp = shapes(3, 2) if tier == "quick" else shapes(4, 3)
+    shp = shapes(3, 2) if tier == "quick" else shapes(5, 3)
     for sh in shp:
         nm = "circuit." + _shape_name(sh)
         o = Obligation(nm, make_circuit_harness(sh), bounds="connection %s over opaque finite non-zero leaves" % _shape_name(sh),
